@@ -354,7 +354,7 @@ pub fn run_c08(ctx: &Ctx) -> (Report, String) {
     } else if ctx.tier == Tier::Quick {
         67
     } else {
-        160
+        224
     };
     let maxd = (maxd as u64 * ctx.scale_pct.min(100) / 100).max(9) as usize;
     let reps = par_shards(maxd, ctx.threads, |s| {
